@@ -1109,6 +1109,7 @@ package iavl
 //@   callsite nodeDB).DeleteVersionsFrom [everything-above-target] arg0 == tree.ndb && arg1 == targetVersion + 1
 //@   callsite nodeDB).Commit [rollback-committed] arg0 == tree.ndb
 //@   callsite enableFastStorageAndCommitIfNotEnabled [index-rebuilt] !tree.skipFastStorageUpgrade && arg0 == tree
+//@   ensures [index-rebuild-never-skipped] err == nil && !tree.skipFastStorageUpgrade ==> calls("MutableTree).enableFastStorageAndCommitIfNotEnabled") == 1
 //@   modifies *
 
 // ---------------------------------------------------------------- import.go: Commit — what the import writes as the root of the imported version (C10)
